@@ -12,20 +12,25 @@ Trace == ndJsonDeserialize("trace.ndjson")
 VARIABLES l,      \* next trace line
           cur,    \* abstract state after the last committed entry
           hs,     \* open handles: id -> record
-          base,   \* abstract state at the last acknowledged-durable point
-          wents   \* entries committed since base (may be lost by a crash)
-vars == <<l, cur, hs, base, wents>>
+          base,   \* abstract state at the last point where everything was durable (Flush/Close/reopen)
+          wents,  \* entries committed since base: [e |-> entry, acked |-> durability acknowledged]
+          durn,   \* C13: smallest prefix length the last durable-only read is consistent with
+          ver     \* C22: file set of the last installed version the driver saw
+cv == <<base, wents, durn, ver>>
+vars == <<l, cur, hs, base, wents, durn, ver>>
 
 Chk(c) == c \in Checked
+TrackCrash == Checked \cap {"crash10", "crash11", "crash12", "crash13", "crash22", "crash43", "ckpt"} # {}
 Ev == Trace[l]
 Is(o) == l <= Len(Trace) /\ Trace[l].op = o /\ l' = l + 1
 Has(h) == h \in DOMAIN hs
 Put(h, r) == hs' = [x \in DOMAIN hs \cup {h} |-> IF x = h THEN r ELSE hs[x]]
 Drop(h) == hs' = [x \in DOMAIN hs \ {h} |-> hs[x]]
 
-TraceInit == l = 1 /\ cur = EmptySt /\ hs = <<>> /\ base = EmptySt /\ wents = <<>> /\ TLCSet(1, 0)
+TraceInit == /\ l = 1 /\ cur = EmptySt /\ hs = <<>> /\ base = EmptySt /\ wents = <<>> /\ durn = 0 /\ ver = {}
+             /\ TLCSet(1, 0)
 
-Reset == Is("reset") /\ cur' = EmptySt /\ hs' = <<>> /\ base' = EmptySt /\ wents' = <<>>
+Reset == Is("reset") /\ cur' = EmptySt /\ hs' = <<>> /\ base' = EmptySt /\ wents' = <<>> /\ durn' = 0 /\ ver' = {}
 
 (* ---- the state a read source denotes ---- *)
 View(src) == IF src = 0 THEN cur
@@ -35,11 +40,11 @@ View(src) == IF src = 0 THEN cur
 Taint(src) == IF src # 0 /\ hs[src].t = "snap" THEN hs[src].taint ELSE {}
 
 (* ---- writes ---- *)
-Durable(e) == e.sync
+(* e.sync: the call acknowledged durability (Sync commit with the WAL enabled; ingest; excise) *)
 Advance(e) ==
   /\ cur' = ApplyEntry(cur, e)
-  /\ (IF Durable(e) THEN base' = ApplyEntry(cur, e) /\ wents' = <<>>
-      ELSE base' = base /\ wents' = Append(wents, e))
+  /\ wents' = (IF TrackCrash THEN Append(wents, [e |-> e, acked |-> e.sync]) ELSE wents)
+  /\ UNCHANGED <<base, durn, ver>>
 TaintAll(a, b) ==
   [x \in DOMAIN hs |-> IF hs[x].t = "snap" THEN [hs[x] EXCEPT !.taint = @ \cup {k \in Keys : InR(k, a, b)}] ELSE hs[x]]
 Commit == Is("commit") /\ Advance(Ev) /\ UNCHANGED hs
@@ -49,90 +54,125 @@ Excise == Is("excise") /\ Advance(Ev) /\ hs' = TaintAll(Ev.a, Ev.b)
 (* committing an indexed batch: its ops are exactly what was logged through batchop *)
 BatchCommit == Is("batchcommit") /\ Has(Ev.h) /\ hs[Ev.h].t = "batch"
                /\ Advance([op |-> "commit", ops |-> hs[Ev.h].ops, sync |-> Ev.sync]) /\ Drop(Ev.h)
-(* Flush returned / everything so far acknowledged durable *)
-DurablePoint == Is("durable") /\ base' = cur /\ wents' = <<>> /\ UNCHANGED <<cur, hs>>
-Maint == Is("maint") /\ UNCHANGED <<cur, hs, base, wents>>
+(* Flush (or Close with the WAL enabled) returned: everything committed so far is durable (C12) *)
+DurablePoint == Is("durable") /\ base' = cur /\ wents' = <<>> /\ durn' = 0 /\ UNCHANGED <<cur, hs, ver>>
+(* SyncWait returned for an earlier ApplyNoSyncWait: entries up to index Ev.upto of the window are acked *)
+SyncWait == Is("syncwait")
+            /\ wents' = [i \in DOMAIN wents |-> IF i <= Ev.upto THEN [wents[i] EXCEPT !.acked = TRUE] ELSE wents[i]]
+            /\ UNCHANGED <<cur, hs, base, durn, ver>>
+Maint == Is("maint") /\ UNCHANGED <<cur, hs, cv>>
 
 (* ---- handles ---- *)
-Snap == Is("snap") /\ ~Has(Ev.h) /\ Put(Ev.h, [t |-> "snap", view |-> cur, taint |-> {}]) /\ UNCHANGED <<cur, base, wents>>
-Efos == Is("efos") /\ ~Has(Ev.h) /\ Put(Ev.h, [t |-> "efos", view |-> cur, ranges |-> Ev.ranges]) /\ UNCHANGED <<cur, base, wents>>
-BatchNew == Is("batchnew") /\ ~Has(Ev.h) /\ Put(Ev.h, [t |-> "batch", ops |-> <<>>]) /\ UNCHANGED <<cur, base, wents>>
+Snap == Is("snap") /\ ~Has(Ev.h) /\ Put(Ev.h, [t |-> "snap", view |-> cur, taint |-> {}]) /\ UNCHANGED <<cur, cv>>
+Efos == Is("efos") /\ ~Has(Ev.h) /\ Put(Ev.h, [t |-> "efos", view |-> cur, ranges |-> Ev.ranges]) /\ UNCHANGED <<cur, cv>>
+BatchNew == Is("batchnew") /\ ~Has(Ev.h) /\ Put(Ev.h, [t |-> "batch", ops |-> <<>>]) /\ UNCHANGED <<cur, cv>>
 BatchOp == Is("batchop") /\ Has(Ev.h) /\ hs[Ev.h].t = "batch"
-           /\ Put(Ev.h, [hs[Ev.h] EXCEPT !.ops = Append(@, Ev.bop)]) /\ UNCHANGED <<cur, base, wents>>
-Close == Is("close") /\ Has(Ev.h) /\ Drop(Ev.h) /\ UNCHANGED <<cur, base, wents>>
+           /\ Put(Ev.h, [hs[Ev.h] EXCEPT !.ops = Append(@, Ev.bop)]) /\ UNCHANGED <<cur, cv>>
+Close == Is("close") /\ Has(Ev.h) /\ Drop(Ev.h) /\ UNCHANGED <<cur, cv>>
 
 (* ---- point reads and full scans ---- *)
 Get == Is("get") /\ (Ev.src = 0 \/ Has(Ev.src))
        /\ ((Chk(Ev.cls) /\ Ev.k \notin Taint(Ev.src)) => Ev.res = View(Ev.src).pts[Ev.k])
-       /\ UNCHANGED <<cur, hs, base, wents>>
+       /\ UNCHANGED <<cur, hs, cv>>
 (* a scan logs the visited points in iteration order and the defragmented range-key spans *)
 SpanSetOf(lg) == {<<x[1], x[2], ToSet(x[3])>> : x \in ToSet(lg)}
 Scan == Is("scan") /\ (Ev.src = 0 \/ Has(Ev.src))
         /\ ((Chk(Ev.cls) /\ Taint(Ev.src) = {}) =>
               /\ Ev.pts = ScanPts(View(Ev.src))
               /\ SpanSetOf(Ev.rks) = Spans(View(Ev.src).rks))
-        /\ UNCHANGED <<cur, hs, base, wents>>
+        /\ UNCHANGED <<cur, hs, cv>>
 
 (* ---- iterators ---- *)
-ItView(src) == View(src)
 NewIter == Is("newiter") /\ ~Has(Ev.h) /\ (Ev.src = 0 \/ Has(Ev.src))
            /\ Put(Ev.h, [t |-> "iter", cls |-> Ev.cls, src |-> Ev.src,
                          dbview |-> (IF Ev.src # 0 /\ hs[Ev.src].t = "batch" THEN cur ELSE View(Ev.src)),
                          free |-> (Taint(Ev.src) # {}),
                          it |-> NewIt(View(Ev.src), Ev.lo, Ev.hi, Ev.mask, Ev.kt)])
-           /\ UNCHANGED <<cur, base, wents>>
+           /\ UNCHANGED <<cur, cv>>
 IterOp == Is("iter") /\ Has(Ev.h) /\ hs[Ev.h].t = "iter"
           /\ LET r == IterStep(hs[Ev.h].it, Ev.o, Ev.k) IN
                /\ ((Chk(hs[Ev.h].cls) /\ ~hs[Ev.h].free) => (Ev.err = r.err /\ ResMatch(Ev.res, r.res)))
                /\ Put(Ev.h, [hs[Ev.h] EXCEPT !.it = r.it])
-          /\ UNCHANGED <<cur, base, wents>>
+          /\ UNCHANGED <<cur, cv>>
 SetBounds == Is("setbounds") /\ Has(Ev.h) /\ hs[Ev.h].t = "iter"
              /\ Put(Ev.h, [hs[Ev.h] EXCEPT !.it.lo = Ev.lo, !.it.hi = Ev.hi, !.it.pos = -2, !.it.pfx = -1, !.it.err = FALSE])
-             /\ UNCHANGED <<cur, base, wents>>
+             /\ UNCHANGED <<cur, cv>>
 (* SetOptions: new bounds/mask/key types; an indexed-batch iterator also refreshes its batch view *)
 Refreshed(ih) == IF ih.src # 0 /\ Has(ih.src) /\ hs[ih.src].t = "batch"
                  THEN ApplyBatch(ih.dbview, hs[ih.src].ops) ELSE ih.it.view
 SetOpts == Is("setopts") /\ Has(Ev.h) /\ hs[Ev.h].t = "iter"
            /\ Put(Ev.h, [hs[Ev.h] EXCEPT !.it = NewIt(Refreshed(hs[Ev.h]), Ev.lo, Ev.hi, Ev.mask, Ev.kt)])
-           /\ UNCHANGED <<cur, base, wents>>
+           /\ UNCHANGED <<cur, cv>>
 (* Clone keeps the pinned DB view; with refresh an indexed-batch iterator sees the batch as of now *)
 CloneIt == Is("clone") /\ Has(Ev.from) /\ hs[Ev.from].t = "iter" /\ ~Has(Ev.h)
            /\ Put(Ev.h, [hs[Ev.from] EXCEPT !.cls = Ev.cls,
                   !.it = NewIt(IF Ev.refresh THEN Refreshed(hs[Ev.from]) ELSE hs[Ev.from].it.view,
                                Ev.lo, Ev.hi, Ev.mask, Ev.kt)])
-           /\ UNCHANGED <<cur, base, wents>>
+           /\ UNCHANGED <<cur, cv>>
 
-(* ---- crashes ---- *)
+(* ---- crashes (C10-C13, C22, C38, C40, C43) ---- *)
 StOf(j) == [pts |-> [k \in Keys |-> j.pts[k + 1]], rks |-> [p \in Prefixes |-> ToSet(j.rks[p + 1])]]
+(* the window at a probe: entries since base plus the calls in flight (never acknowledged yet) *)
+Win(pend) == wents \o [i \in 1..Len(pend) |-> [e |-> pend[i], acked |-> FALSE]]
 RECURSIVE ApplyEntries(_, _, _, _)
-ApplyEntries(st, es, i, n) == IF i > n THEN st ELSE ApplyEntries(ApplyEntry(st, es[i]), es, i + 1, n)
-(* C11: the recovered state is the model state after some prefix of the not-yet-durable entries *)
-IsPrefixState(st, es) == \E n \in 0..Len(es) : st = ApplyEntries(base, es, 1, n)
-(* C10: it contains every acknowledged-durable entry (= base); the others may or may not be there *)
+ApplyEntries(st, es, i, n) == IF i > n THEN st ELSE ApplyEntries(ApplyEntry(st, es[i].e), es, i + 1, n)
+AckedIdx(es) == {i \in 1..Len(es) : es[i].acked}
+MaxAcked(es) == IF AckedIdx(es) = {} THEN 0 ELSE Max(AckedIdx(es))
+(* C11: the model state after a prefix of the history (in sequence-number order) that holds every acknowledged entry *)
+PrefixFrom(st, es, lo) == \E n \in lo..Len(es) : st = ApplyEntries(base, es, 1, n)
+(* C10: every acknowledged entry is there; unacknowledged ones may or may not be *)
 RECURSIVE ApplySub(_, _, _, _)
 ApplySub(st, es, i, keep) == IF i > Len(es) THEN st
-                             ELSE ApplySub(IF i \in keep THEN ApplyEntry(st, es[i]) ELSE st, es, i + 1, keep)
-IsSuperOfAcked(st, es) == \E keep \in SUBSET (1..Len(es)) : st = ApplySub(base, es, 1, keep)
-CrashOK(st, es) ==
-  /\ Chk("crash11") => IsPrefixState(st, es)
-  /\ (Chk("crash10") /\ ~Chk("crash11")) => IsSuperOfAcked(st, es)
+                             ELSE ApplySub(IF i \in keep THEN ApplyEntry(st, es[i].e) ELSE st, es, i + 1, keep)
+SuperOfAcked(st, es) == \E opt \in SUBSET ((1..Len(es)) \ AckedIdx(es)) : st = ApplySub(base, es, 1, AckedIdx(es) \cup opt)
+CrashOK(ev) ==
+  LET st == StOf(ev.state)
+      es == Win(ev.pend) IN
+  /\ (Chk("crash10") \/ Chk("crash11") \/ Chk("crash12") \/ Chk("crash22") \/ Chk("crash43")) => ev.ok
+  /\ Chk("crash11") => PrefixFrom(st, es, MaxAcked(es))
+  /\ Chk("crash43") => PrefixFrom(st, es, MaxAcked(es))
+  /\ Chk("crash12") => PrefixFrom(st, es, 0)      \* only Flush/Close count as acknowledgements (they reset base)
+  /\ Chk("crash10") => SuperOfAcked(st, es)
+  /\ (Chk("crash13") /\ ev.dur) => (ev.ok /\ PrefixFrom(st, es, durn))
+(* C22: with the WAL disabled recovery builds no tables, so the recovered file set is a MANIFEST version: *)
+(* the last installed one the driver saw, or the next one (its edit was in flight)                        *)
+(* vallowed: the table sets of the last two versions described by the MANIFEST of the uncrashed store at   *)
+(* the probe (decoded by the driver with the real VersionEdit decoder); only the last one at a quiescent  *)
+(* point, i.e. once every installing call has returned.                                                    *)
+VerOK(ev) == (Chk("crash22") /\ ev.hasfiles /\ ev.ok) =>
+                 ToSet(ev.files) \in {ToSet(ev.vallowed[i]) : i \in DOMAIN ev.vallowed}
 (* a crash clone taken now (pend = entries in flight, not yet returned), reopened and dumped *)
-CrashProbe == Is("crashprobe") /\ Ev.ok /\ CrashOK(StOf(Ev.state), wents \o Ev.pend)
-              /\ UNCHANGED <<cur, hs, base, wents>>
+CrashProbe == Is("crashprobe") /\ CrashOK(Ev) /\ VerOK(Ev) /\ UNCHANGED <<cur, hs, cv>>
 (* the run itself continues from a crash: every handle is gone *)
-Reopen == Is("reopen") /\ Ev.ok /\ CrashOK(StOf(Ev.state), wents \o Ev.pend)
-          /\ cur' = StOf(Ev.state) /\ base' = StOf(Ev.state) /\ wents' = <<>> /\ hs' = <<>>
-(* a clean close + reopen must preserve the state exactly *)
+Reopen == Is("reopen") /\ Ev.ok /\ CrashOK(Ev) /\ VerOK(Ev)
+          /\ cur' = StOf(Ev.state) /\ base' = StOf(Ev.state) /\ wents' = <<>> /\ hs' = <<>> /\ durn' = 0
+          /\ ver' = IF Ev.hasfiles THEN ToSet(Ev.files) ELSE ver
+Version == Is("version") /\ ver' = ToSet(Ev.files) /\ UNCHANGED <<cur, hs, base, wents, durn>>
+(* C13: an OnlyReadGuaranteedDurable iterator shows the model state after some prefix of the history *)
+DurPrefixes(st) == {n \in 0..Len(wents) : st = ApplyEntries(base, wents, 1, n)}
+DurRead == Is("durread")
+           /\ (Chk("crash13") => DurPrefixes(StOf(Ev.state)) # {})
+           /\ durn' = (IF DurPrefixes(StOf(Ev.state)) # {} THEN Min(DurPrefixes(StOf(Ev.state))) ELSE 0)
+           /\ UNCHANGED <<cur, hs, base, wents, ver>>
+(* a clean close + reopen must preserve the state exactly (C47) *)
 CleanReopen == Is("cleanreopen") /\ (Chk("reopen") => (Ev.ok /\ StOf(Ev.state) = cur))
-               /\ base' = cur /\ wents' = <<>> /\ hs' = <<>> /\ UNCHANGED cur
+               /\ base' = cur /\ wents' = <<>> /\ hs' = <<>> /\ durn' = 0 /\ UNCHANGED <<cur, ver>>
+(* Close of the DB after every handle was closed must succeed and leak nothing (C47) *)
+CloseDB == Is("closedb") /\ (Chk("close") => Ev.ok) /\ UNCHANGED <<cur, hs, cv>>
+(* a checkpoint opened as a DB: a consistent prefix containing everything durable at the call; *)
+(* with flushed WAL everything visible at the call (C38)                                       *)
+Checkpoint == Is("checkpoint")
+              /\ (Chk("ckpt") => /\ Ev.ok
+                                 /\ IF Ev.flushwal THEN StOf(Ev.state) = cur
+                                    ELSE PrefixFrom(StOf(Ev.state), wents, MaxAcked(wents)))
+              /\ UNCHANGED <<cur, hs, cv>>
+(* free-form annotations *)
+Note == Is("note") /\ UNCHANGED <<cur, hs, cv>>
 
-(* Close of the DB after every handle was closed must succeed (C47) *)
-CloseDB == Is("closedb") /\ (Chk("close") => Ev.ok) /\ UNCHANGED <<cur, hs, base, wents>>
-
-TraceNext == \/ Reset \/ Commit \/ Ingest \/ IngestExcise \/ Excise \/ BatchCommit \/ DurablePoint \/ Maint
+TraceNext == \/ Reset \/ Commit \/ Ingest \/ IngestExcise \/ Excise \/ BatchCommit \/ DurablePoint \/ SyncWait \/ Maint
              \/ Snap \/ Efos \/ BatchNew \/ BatchOp \/ Close \/ Get \/ Scan
              \/ NewIter \/ IterOp \/ SetBounds \/ SetOpts \/ CloneIt
-             \/ CrashProbe \/ Reopen \/ CleanReopen \/ CloseDB
+             \/ CrashProbe \/ Reopen \/ Version \/ DurRead \/ CleanReopen \/ CloseDB \/ Checkpoint \/ Note
 TraceSpec == TraceInit /\ [][TraceNext]_vars
 
 (* acceptance: high-water mark of consumed lines *)
